@@ -65,6 +65,11 @@ def job_pair(item):
     S.absorb_engine(eng)
     return S
 
+def task(item):
+    if item[0] == 'pair': return job_pair(item[1:])
+    from . import c01 as C01
+    return C01.job_ast(item[1:])
+
 def decode_num(sel, raw):
     k = sel[0] % 3
     if k == 0: return tag_num('pos', K.le(raw)), float(K.le(raw))
@@ -92,8 +97,17 @@ def kani_candidates(run, results):
 
 def confirm(c, nd, nr):
     req = c['request']; obs = {}
+    if c['key'] == 'spec-mismatch' or req.get('op') == 'search_ast':
+        o1 = nd.request(req); o2 = nr.request(req); exp = c['expected']
+        if c['key'].endswith('panic'): return any(o.get('kind') in ('panic', 'abort', 'hang') for o in (o1, o2)), {'dev': o1, 'release': o2}
+        same = lambda o: (o.get('kind') == 'err' and exp[0] == 'err' and o.get('reason_kind') == exp[1]) or (exp[0] == 'ok' and o.get('kind') == 'ok' and o.get('value') == exp[1])
+        return (not same(o1)) or (not same(o2)), {'dev': o1, 'release': o2}
     for prof, n in (('dev', nd), ('release', nr)):
         o = n.request(req); o2 = n.request({'op': 'compare', 'a': req['b'], 'b': req['a']}); obs[prof] = {'ab': o, 'ba': o2}
+    if c['key'] == 'spec-mismatch':
+        o1 = nd.request(req); o2 = nr.request(req); exp = c['expected']
+        same = lambda o: (o.get('kind') == 'err' and exp[0] == 'err' and o.get('reason_kind') == exp[1]) or (exp[0] == 'ok' and o.get('kind') == 'ok' and o.get('value') == exp[1])
+        return (not same(o1)) or (not same(o2)), {'dev': o1, 'release': o2}
     if c['key'].endswith('panic'): return any(o['ab'].get('kind') in ('panic', 'abort', 'hang') for o in obs.values()), obs
     def violates(o):
         if o['ab'].get('kind') != 'ok': return True
@@ -121,7 +135,13 @@ def run(run):
                    'containers deeper than the bounds']
     run.assumes = ['numbers are finite (serde_json::Number cannot hold NaN/inf)']
     jobs = [(1, 1, run.deadline, 10**7), (2, 1, run.deadline, 60000), (1, 2, run.deadline, 60000)] + ([] if quick else [(2, 2, run.deadline, 10**7)])
-    run_jobs(run, jobs, job_pair, 'mirsym: Variable::compare on pairs of symbolic values vs structural equality')
-    res = K.run_harnesses(run, ['c10_numbers_algebra', 'c10_le_is_lt_or_eq', 'c10_trichotomy_well_separated', 'c10_mixed_types'], timeout=900 if quick else 3000)
+    # the Comparison arm of interpret itself (operands may be the SAME shared value): symbolic ASTs Comparison(l, r) over leaf operands
+    from . import c01 as C01
+    C01.PROG = PROG; C01.SEED = SEED
+    leafs = ['Identity', 'Field', 'Index', 'Literal']
+    ajobs = [('ast', 'Comparison', (c1, c2), 1, 1, run.deadline, 10**7, True) for c1 in leafs for c2 in leafs]
+    run.bounds['Comparison arm (M)'] = 'interpret(Comparison{cmp, l, r}) for every comparator and leaf operands (current node, field a/b, any index, scalar literal) on symbolic documents of depth 1, incl. both operands denoting the same value'
+    run_jobs(run, [('pair',) + j for j in jobs] + ajobs, task, 'mirsym: Variable::compare on pairs of symbolic values vs structural equality; Comparison arm of interpret')
+    res = K.run_harnesses(run, ['c10_numbers_eq_algebra', 'c10_numbers_order', 'c10_le_is_lt_or_eq', 'c10_trichotomy_well_separated', 'c10_mixed_types'], timeout=900 if quick else 3000)
     kani_candidates(run, res)
     run.confirm_all(confirm)
